@@ -3503,13 +3503,18 @@ Octagonal_Shape<T>::simplify_using_context_assign(const Octagonal_Shape& y) {
       if (j != x_leaders[j]) {
         continue;
       }
-      if (i >= j) {
+      // The redundancy information has to be looked up in the row
+      // where the entry (i, j) is actually stored (see matrix_at()).
+      if (j < OR_Matrix<N>::row_size(i)) {
         if (!x_non_redundant_i[j]) {
           continue;
         }
       }
-      else if (!x_non_redundant[j][i]) {
-        continue;
+      else {
+        using namespace Implementation::Octagonal_Shapes;
+        if (!x_non_redundant[coherent_index(j)][coherent_index(i)]) {
+          continue;
+        }
       }
       N& yy_i_j = yy.matrix_at(i, j);
       const N& x_i_j = x.matrix_at(i, j);
